@@ -559,7 +559,20 @@ func main() {
 		sc       scenario
 	}
 	var spans []span
+	t0 := time.Now()
+	budget := 4 * time.Minute
+	if f.Thorough() {
+		budget = 25 * time.Minute
+	}
 	for i, sc := range scs {
+		if rep.FailEvents >= 3 {
+			rep.Note("stopping early: violations already recorded")
+			break
+		}
+		if time.Since(t0) > budget {
+			rep.Note("time budget reached after %d scenarios", i)
+			break
+		}
 		lines, expect, skipped := run(sc, f.Seed*1000+uint64(i), rep)
 		if skipped == "registry lock held" {
 			rep.Note("stopped after scenario %d: the registry lock is held for ever", i)
